@@ -94,6 +94,28 @@ class GArity(GlomError):
         self.b = b
 
 
+class UFalsy(Exception):
+    """a collection-like error: falsy when it holds no items"""
+    def __len__(self):
+        return len(self.args)
+
+
+class GFalsy(GlomError):
+    def __bool__(self):
+        return False
+
+
+class UStatusBase(Exception):
+    """subclasses must declare a status: class NotFound(UStatusBase, status=404)"""
+    def __init_subclass__(cls, *, status, **kw):
+        super().__init_subclass__(**kw)
+        cls.status = status
+
+
+class UStatus404(UStatusBase, status=404):
+    pass
+
+
 class Cancelled(BaseException):
     pass
 
@@ -120,6 +142,9 @@ CATALOGUE = {
     'UArity': lambda: UArity('first', 'second'),
     'UTransform': lambda: UTransform('msg'),
     'USub': lambda: USub('sub of ValueError'),
+    'UFalsy': lambda: UFalsy(),
+    'GFalsy': lambda: GFalsy('falsy glom error'),
+    'UStatus404': lambda: UStatus404('not found'),
     'GlomError': lambda: GlomError('plain glom error'),
     'GSub': lambda: GSub('user glom error', 2),
     'GOwnInit': lambda: GOwnInit(1, 2),
@@ -234,8 +259,13 @@ def make_kwargs(exc_type, default, skip, debug, marker):
 
 
 def rebuildable(e):
+    """can an object that is BOTH of e's class and a GlomError be built from e's args?  (a class that refuses plain
+    subclassing - __init_subclass__ with required arguments, a sealing metaclass - cannot be combined with GlomError at
+    all: such an error can only leave glom() as itself)"""
     try:
         c = type(e)(*e.args)
+        if not isinstance(e, GlomError):
+            type('probe', (type(e), GlomError), {})
     except Exception:
         return False
     return c.args == e.args
